@@ -953,7 +953,8 @@ impl TryFrom<Option<char>> for LocationPrefix {
     type Error = &'static str;
 
     fn try_from(value: Option<char>) -> Result<Self, Self::Error> {
-        match value {
+        // The prefix letters are not case sensitive (the lexer accepts either case)
+        match value.map(|c| c.to_ascii_uppercase()) {
             Some('I') => Ok(LocationPrefix::I),
             Some('Q') => Ok(LocationPrefix::Q),
             Some('M') => Ok(LocationPrefix::M),
@@ -997,7 +998,8 @@ impl TryFrom<Option<char>> for SizePrefix {
     type Error = &'static str;
 
     fn try_from(value: Option<char>) -> Result<Self, Self::Error> {
-        match value {
+        // The prefix letters are not case sensitive (the lexer accepts either case)
+        match value.map(|c| c.to_ascii_uppercase()) {
             Some('*') => Ok(SizePrefix::Unspecified),
             Some('X') => Ok(SizePrefix::X),
             Some('B') => Ok(SizePrefix::B),
@@ -1371,8 +1373,9 @@ pub struct AddressAssignment {
 }
 
 lazy_static! {
-    static ref DIRECT_ADDRESS_UNASSIGNED: Regex = Regex::new(r"%([IQM])\*").unwrap();
-    static ref DIRECT_ADDRESS: Regex = Regex::new(r"%([IQM])([XBWDL])?(\d+(\.\d+)*)").unwrap();
+    static ref DIRECT_ADDRESS_UNASSIGNED: Regex = Regex::new(r"(?i)%([IQM])\*").unwrap();
+    static ref DIRECT_ADDRESS: Regex =
+        Regex::new(r"(?i)%([IQM])([XBWDL])?(\d+(\.\d+)*)").unwrap();
 }
 
 impl TryFrom<&str> for AddressAssignment {
